@@ -254,8 +254,8 @@ func variant(v *Val, k int, public bool) *Val {
 	case "rs", "rb":
 		return &c
 	case "usr":
-		if v.UK == 9 || v.UK == 11 {
-			return v // SafeValue user kinds: declared safe as a whole
+		if v.UK == 9 || v.UK == 11 || v.UK == 12 {
+			return v // SafeValue user kinds: declared safe as a whole; registered kind: kept equal either way
 		}
 		c.ID = newID()
 		pub := public
@@ -445,7 +445,14 @@ func (b Blank) Format(s fmt.State, verb rune) {
 
 func c05leaf(g *vgen) (*Val, bool) {
 	r := g.rng
-	switch r.intn(10) {
+	switch r.intn(11) {
+	case 10:
+		// a value rendered by its String method whose type is a SafeValue / registered
+		uk := 9
+		if r.coin(1, 2) {
+			uk = 12
+		}
+		return &Val{K: "usr", UK: uk, ID: newID(), Script: []*Act{{K: "ret", S: g.str()}}}, true
 	case 0:
 		return &Val{K: "i", GoT: r.pick([]string{"SvInt", "SafeInt", "RegInt"}), I: intVals[r.intn(len(intVals))]}, true
 	case 1:
@@ -531,7 +538,7 @@ func c05val2(g *vgen, depth int, reg bool, kinds *string) (*Val, func() interfac
 	if v.K == "safe" {
 		*kinds = verbsFor(v.Elems[0])
 	}
-	if (v.GoT == "RegInt" || v.GoT == "RegStr") && !reg {
+	if (v.GoT == "RegInt" || v.GoT == "RegStr" || (v.K == "usr" && v.UK == 12)) && !reg {
 		safe = false
 	}
 	plain := func() interface{} {
@@ -627,6 +634,11 @@ func genQ05(w *bufio.Writer, rng *prng, n int, depth int) {
 			sb.WriteByte('%')
 			if rng.coin(1, 3) {
 				for _, ch := range "+-# " {
+					if ch == '#' && valHasUser(v) {
+						// %#v renders a value with a String method as a struct in Go syntax: type and
+						// field names are structure, not part of a leaf's extent
+						continue
+					}
 					if rng.coin(1, 4) {
 						sb.WriteRune(ch)
 					}
